@@ -109,7 +109,7 @@ class _Named(io.BytesIO):
 
 def main(tier):
     rep = common.Report("C11", tier, "model_checking")
-    run_spec(rep, C11Spec(tier), "closure", time_cap=300 if tier == "quick" else 3000)
+    run_spec(rep, C11Spec(tier), "closure", time_cap=120 if tier == "quick" else 3000)
     sizes_roundtrip(rep)
     rep.assumptions += ["alphabet: pids 'ab'/'a', formats omitted/explicit default/'c'/'bc' (('ab','c') and ('a','bc') "
                         "concatenate alike), documents v1 (5 bytes) / v2 (3 buffers + 7 bytes)",
